@@ -257,14 +257,39 @@ class Effects:
     if key in seen or depth > 4:
       return []
     seen.add(key)
-    env = self.env(fi, tainted)
+    env_all = self.env(fi, tainted)
     here = chain + (fi.qualname,)
     out: list[Mutation] = []
+    sites = self._assign_sites(fi, env_all)
+    params = set(fi.params())
+
+    class _Env(dict):
+      pass
+
+    def env_at(node):
+      """Line-ordered refinement: a local assigned only *after* this
+      statement (and not in a loop shared with it) does not alias yet."""
+      ln = getattr(node, 'lineno', 0)
+      e = dict(env_all)
+      for name, recs in sites.items():
+        if name in params or name in tainted:
+          continue
+        lv = NONE
+        for an, alv, loops in recs:
+          if an.lineno <= ln or any(l.lineno <= ln <= getattr(l, 'end_lineno', l.lineno)
+                                    for l in loops):
+            lv = max(lv, alv)
+        e[name] = lv
+      return e
+
+    env = env_all
 
     def hit(node, target_expr, how):
       out.append(Mutation(fi, node, unparse(target_expr), how, here))
 
     for n in self.live(fi.node):
+      if isinstance(n, (ast.Assign, ast.AnnAssign, ast.AugAssign, ast.Delete, ast.Call)):
+        env = env_at(n)
       if isinstance(n, (ast.Assign, ast.AnnAssign)):
         tg = n.targets if isinstance(n, ast.Assign) else [n.target]
         for t in tg:
@@ -301,6 +326,73 @@ class Effects:
           if sub:
             out.extend(self.mutations(callee, sub, depth + 1, here, seen))
     return out
+
+  def _assign_sites(self, fi: FuncInfo, env) -> dict:
+    """name -> [(assignment node, level of the assigned value, enclosing loops)]."""
+    out: dict = {}
+
+    def children(node):
+      if isinstance(node, ast.If) and self.consts:
+        t, neg = node.test, False
+        if isinstance(t, ast.UnaryOp) and isinstance(t.op, ast.Not):
+          t, neg = t.operand, True
+        if isinstance(t, ast.Name) and t.id in self.consts:
+          val = bool(self.consts[t.id]) != neg
+          return list(node.body if val else node.orelse)
+      return list(ast.iter_child_nodes(node))
+
+    def loop_levels(target, it):
+      e3 = dict(env)
+      for x in ast.walk(target):
+        if isinstance(x, ast.Name):
+          e3.pop(x.id, None)
+      self._bind_loop(target, it, e3)
+      return {x.id: e3.get(x.id, NONE) for x in ast.walk(target) if isinstance(x, ast.Name)}
+
+    def rec(node, loops):
+      for ch in children(node):
+        if isinstance(ch, (ast.FunctionDef, ast.AsyncFunctionDef, ast.ClassDef, ast.Lambda)):
+          continue
+        nl = loops + [ch] if isinstance(ch, (ast.For, ast.AsyncFor, ast.While)) else loops
+        if isinstance(ch, ast.Assign):
+          lv = self.level(ch.value, env)
+          for t in ch.targets:
+            self._site_targets(t, ch.value, lv, ch, nl, env, out)
+        elif isinstance(ch, ast.AnnAssign) and ch.value is not None:
+          self._site_targets(ch.target, ch.value, self.level(ch.value, env), ch, nl, env, out)
+        elif isinstance(ch, ast.NamedExpr):
+          self._site_targets(ch.target, ch.value, self.level(ch.value, env), ch, nl, env, out)
+        elif isinstance(ch, (ast.For, ast.AsyncFor)):
+          for name, lv in loop_levels(ch.target, ch.iter).items():
+            out.setdefault(name, []).append((ch, lv, nl))
+        elif isinstance(ch, ast.comprehension):
+          for name, lv in loop_levels(ch.target, ch.iter).items():
+            out.setdefault(name, []).append((node, lv, nl))
+        elif isinstance(ch, (ast.With, ast.AsyncWith)):
+          for it in ch.items:
+            if it.optional_vars is not None:
+              for x in ast.walk(it.optional_vars):
+                if isinstance(x, ast.Name):
+                  out.setdefault(x.id, []).append((ch, env.get(x.id, NONE), nl))
+        elif isinstance(ch, ast.ExceptHandler) and ch.name:
+          out.setdefault(ch.name, []).append((ch, NONE, nl))
+        rec(ch, nl)
+
+    rec(fi.node, [])
+    return out
+
+  def _site_targets(self, tgt, value, lvl, node, loops, env, out):
+    if isinstance(tgt, ast.Name):
+      out.setdefault(tgt.id, []).append((node, lvl, loops))
+    elif isinstance(tgt, (ast.Tuple, ast.List)):
+      if isinstance(value, (ast.Tuple, ast.List)) and len(value.elts) == len(tgt.elts):
+        for t, v in zip(tgt.elts, value.elts):
+          self._site_targets(t, v, self.level(v, env), node, loops, env, out)
+      else:
+        sub = DIRECT if lvl != NONE else NONE
+        for t in tgt.elts:
+          self._site_targets(t.value if isinstance(t, ast.Starred) else t, None, sub,
+                             node, loops, env, out)
 
   def resolve(self, call: ast.Call, fi: FuncInfo) -> FuncInfo | None:
     f = call.func
